@@ -8,7 +8,8 @@
     (compared with PrepareQuery on every run). *)
 From Coq Require Import List String Bool ZArith.
 From Thunder Require Import Lib.Json Federation.Merge Federation.MergeProofsBase Federation.MergeProofsTref
-  Federation.MergeProofs Federation.MergeProofsValid Federation.MergeProofsMore.
+  Federation.MergeProofs Federation.MergeProofsValid Federation.MergeProofsMore Federation.MergeProofsComm
+  Federation.MergeProofsClosed.
 Import ListNotations.
 Open Scope string_scope.
 
@@ -81,32 +82,30 @@ Theorem union_complete :
 Proof. exact MergeProofsMore.union_slice_complete. Qed.
 Print Assumptions union_complete.
 
-(** Commutativity.  Full statement (NOT proved):
-      forall md a b, wf_schema a = true -> wf_schema b = true ->
-        (every possibleTypes entry has kind OBJECT) -> merge_schemas md a b = merge_schemas md b a
-    and, for the fold, invariance under permutation of the list *when both orders succeed*
-    (it is false without that guard, see [intersection_error_depends_on_order_refuted]).
-    Proved: commutativity of mergeTypeRefs, the only place where the two sides are treated
-    asymmetrically by the code apart from "first one wins" on equal names.  Missing: that
-    [sorted_names] is a canonical order (needs the total-order laws of [str_ltb]) and the lifting through
-    the five by-name merges.  The harness checks order / renaming independence of
-    MergeIntrospectionSchemas on every generated case instead. *)
-Theorem merge_commutative_partial :
-  forall is_input a b, merge_tref is_input a b = merge_tref is_input b a.
-Proof. exact MergeProofsTref.merge_tref_comm. Qed.
-Print Assumptions merge_commutative_partial.
+(** Commutativity of mergeSchemas (either mode): byte order on strings is a strict total order, so the sorted
+    list of distinct names is canonical, and every per-name pair merge is symmetric.  [schemas_agree]: a union
+    member / interface entry that both sides list names the same kind on both (always OBJECT / INTERFACE in an
+    introspection result).
+    For the n-ary fold, invariance under permutation of services / versions is NOT proved: it needs
+    associativity of the merge, and it can only hold when both orders succeed -- see
+    [intersection_error_depends_on_order_refuted].  The harness checks renaming / reordering independence of
+    MergeIntrospectionSchemas on every generated case. *)
+Theorem merge_commutative :
+  forall md a b, wf_schema a = true -> wf_schema b = true -> schemas_agree a b ->
+    merge_schemas md a b = merge_schemas md b a.
+Proof. exact MergeProofsComm.merge_schemas_comm. Qed.
+Print Assumptions merge_commutative.
 
-(** Closure.  Full statement (NOT proved):
-      forall md a b m, wf_schema a = true -> wf_schema b = true -> closed a = true -> closed b = true ->
-        merge_schemas md a b = Some m -> closed m = true.
-    Proved: the part the soundness theorem uses -- a field, argument or input field that survives keeps the
-    named type (root) of both sides.  The harness checks [closed] on every merged output whose inputs are
-    closed. *)
-Theorem closure_partial :
-  forall is_input a b c, merge_tref is_input a b = Some c ->
-    root_tref c = root_tref a /\ root_tref c = root_tref b.
-Proof. exact MergeProofsTref.merge_tref_root. Qed.
-Print Assumptions closure_partial.
+(** Closure (either mode): every type referenced from a surviving field, argument, input field or union member
+    survives with the kind the reference names, given each input closed. *)
+Theorem merge_closed :
+  forall md a b m,
+    wf_schema a = true -> wf_schema b = true -> closed a = true -> closed b = true ->
+    (forall x y p q, In x a -> In y b -> t_name x = t_name y -> In p (t_possible x) -> In q (t_possible y) ->
+       fst p = fst q -> snd p = snd q) ->
+    merge_schemas md a b = Some m -> closed m = true.
+Proof. exact MergeProofsClosed.merge_schemas_closed. Qed.
+Print Assumptions merge_closed.
 
 (** The union of *services* is not sound in the same sense (DESIGN F17, confirmed on the implementation,
     recorded as known findings): an optional argument only one of two services serving a field declares
